@@ -30,6 +30,8 @@ pub struct SenderMon {
     // emission bookkeeping (stream offsets)
     snd_max: i64,
     fin_sent_at: Option<i64>,
+    /// the socket has keep-alive enabled: one 0x00 octet just below SND.NXT is then legitimate
+    pub keep_alive: bool,
     pub stats: SenderStats,
 }
 
@@ -38,6 +40,7 @@ pub struct SenderStats {
     pub data_segments: u64,
     pub retransmitted_segments: u64,
     pub probes: u64,
+    pub keep_alives: u64,
     pub syns: u64,
     pub fins: u64,
     pub min_slack: Option<i64>,
@@ -68,6 +71,7 @@ impl SenderMon {
             close_at: None,
             snd_max: 0,
             fin_sent_at: None,
+            keep_alive: false,
             stats: SenderStats::default(),
         }
     }
@@ -243,6 +247,13 @@ impl SenderMon {
         let Some(s) = self.off(seg.seq) else { return v };
         let len = seg.payload.len() as i64;
         let e = s + len;
+        // keep-alive (only when the application enabled it): one 0x00 octet placed just below the
+        // sequence number an empty ACK would carry; it announces nothing new and is exempt from
+        // the content and window rules
+        if self.keep_alive && len == 1 && seg.payload[0] == 0 && !seg.is(itcp::FIN) && (s == self.snd_max - 1 || (self.fin_sent_at == Some(self.snd_max) && s == self.snd_max)) {
+            self.stats.keep_alives += 1;
+            return v;
+        }
         if len > 0 {
             self.stats.data_segments += 1;
             // ---- content
